@@ -855,6 +855,18 @@ pub fn gen_plan(id: &str, rng: &mut Rng) -> Result<(gen::GenModule, Vec<Inj>, bo
                 }
                 plan.push(Inj { func: nimp + f as u32, at, mode, path, uid, n_ops: 1, leading_drop: false, probe: Probe::Marker });
                 uid += 1;
+                // 1 in 3: an ordinary before / after injection issued later in the same function (it must not make the special one disappear)
+                if rng.chance(1, 3) && !matches!(mode, Mode::FuncEntry | Mode::FuncExit) {
+                    let pat = rng.below(func.ops.len());
+                    // what happens to instrumentation of instructions inside a replaced region is not specified: stay outside
+                    let region_end = st.end_of.get(&at).or(st.else_end.get(&at)).copied().unwrap_or(at);
+                    if matches!(mode, Mode::BlockAlt | Mode::EmptyBlockAlt) && pat >= at && pat <= region_end {
+                        continue;
+                    }
+                    let pmode = if pat + 1 == func.ops.len() || rng.bool() { Mode::Before } else { Mode::After };
+                    plan.push(Inj { func: nimp + f as u32, at: pat, mode: pmode, path: *rng.pick(&[Path::Iter, Path::IterInjectAt, Path::Modifier]), uid, n_ops: 1, leading_drop: false, probe: Probe::Marker });
+                    uid += 1;
+                }
             }
         }
     }
@@ -1157,7 +1169,10 @@ impl Lower {
                         _ => "other-op",
                     };
                     if i.mode == Mode::EmptyBlockAlt {
-                        let exp = expected_body(&raw_in.funcs[f].ops, &[*i]);
+                        // the region must be gone; ordinary injections made in the same function are part of the expected body
+                        let mut with: Vec<&Inj> = accepted.iter().filter(|j| j.func == i.func && !j.mode.special()).cloned().collect();
+                        with.push(*i);
+                        let exp = expected_body(&raw_in.funcs[f].ops, &with);
                         let same = exp.len() == got.len() && exp.iter().zip(got.iter()).all(|(a, b)| a.bytes == b.bytes);
                         if !same {
                             out.violate(
